@@ -174,7 +174,38 @@ pub fn gen_batch_case(check: &str, seed: u64, family: &str, tier: Tier, with_fil
         w.per_run_sinks = Some((0..batches.len()).map(|_| r.below(top) as u8).collect());
         w.policies_at_run_level = false;
     }
-    let two_callers = w.out.is_none() && batches.len() == 2 && r.chance(0.5);
+    let mut two_callers = w.out.is_none() && batches.len() == 2 && r.chance(0.5);
+    // round 8 (streams of their own, the other knobs stay as they were) ---------------------------------------
+    // the two response files may carry other names: the second may sort before the first, and files of different
+    // formats may share one stem (job.csv / job.json)
+    let mut r4 = Rng::new(seed ^ fnv64("out-names"));
+    if w.out2.is_some() && r4.chance(0.6) {
+        let same_format = std::mem::discriminant(&w.out.as_ref().unwrap().format) == std::mem::discriminant(&w.out2.as_ref().unwrap().format);
+        w.out_stems = Some(match r4.below(if same_format { 2 } else { 4 }) {
+            0 => ("out_summary".to_string(), "out_archive".to_string()),
+            1 => ("out9".to_string(), "out1".to_string()),
+            _ => ("out_job".to_string(), "out_job".to_string()),
+        });
+        // two caller threads, each writing the responses of its batch to a file of its own
+        if batches.len() == 2 && w.out.as_ref().map_or(false, |o| !o.preexisting) && r4.chance(0.6) {
+            w.per_run_sinks = Some(if r4.chance(0.5) { vec![1, 2] } else { vec![2, 1] });
+            w.policies_at_run_level = false;
+            two_callers = true;
+        }
+    }
+    // a user submits some queries again: in a later run() call on the same application, or twice in one batch
+    let mut r5 = Rng::new(seed ^ fnv64("resubmitted"));
+    if r5.chance(0.2) {
+        for bi in 0..batches.len() {
+            let src = if bi > 0 && r5.chance(0.8) { r5.below(bi as u64) as usize } else { bi };
+            for _ in 0..r5.range(1, 3) {
+                if !batches[src].is_empty() {
+                    let q = batches[src][r5.below(batches[src].len() as u64) as usize].clone();
+                    batches[bi].push(q);
+                }
+            }
+        }
+    }
     let mut simcfg = gen_simcfg(&mut r);
     if family == "faults" {
         simcfg.faults = crate::sim::F_SHORT_WRITE | crate::sim::F_EINTR_WRITE;
